@@ -41,15 +41,40 @@ func prod(g int) (string, string) {
 }
 
 // writeGen writes generation g of the server data conf into dir (basenames as configured)
-func writeGen(dir string, g int, clusterConf []byte, vip []byte) error {
+// goodCluster / decoyCluster of generation g: the cluster NAMES alternate too, and generation g's
+// cluster_conf.data holds only its own two clusters, so a request routed by one generation that
+// looks its cluster up in another one fails instead of passing unnoticed.
+func goodCluster(g int) string {
+	if g%2 == 0 {
+		return "ca"
+	}
+	return "cb"
+}
+func decoyCluster(g int) string {
+	if g%2 == 0 {
+		return "da"
+	}
+	return "db"
+}
+
+func writeGen(dir string, g int, clusterConfAll []byte, vip []byte) error {
 	p, q := prod(g)
+	var cc struct {
+		Version string
+		Config  map[string]json.RawMessage
+	}
+	if err := json.Unmarshal(clusterConfAll, &cc); err != nil {
+		return err
+	}
+	clusterConf, _ := json.Marshal(map[string]interface{}{"Version": fmt.Sprintf("g%d", g),
+		"Config": map[string]json.RawMessage{goodCluster(g): cc.Config[goodCluster(g)], decoyCluster(g): cc.Config[decoyCluster(g)]}})
 	ver := fmt.Sprintf("g%d", g)
 	host := map[string]interface{}{"Version": ver, "DefaultProduct": nil,
 		"Hosts":    map[string][]string{"t": {"probe.example"}, "u": {"other.example"}},
 		"HostTags": map[string][]string{p: {"t"}, q: {"u"}}}
 	route := map[string]interface{}{"Version": ver, "ProductRule": map[string]interface{}{
-		p: []map[string]string{{"Cond": "default_t()", "ClusterName": "c0"}},
-		q: []map[string]string{{"Cond": "default_t()", "ClusterName": "c1"}}}}
+		p: []map[string]string{{"Cond": "default_t()", "ClusterName": goodCluster(g)}},
+		q: []map[string]string{{"Cond": "default_t()", "ClusterName": decoyCluster(g)}}}}
 	hb, _ := json.Marshal(host)
 	rb, _ := json.Marshal(route)
 	for name, b := range map[string][]byte{"host_rule.data": hb, "route_rule.data": rb, "cluster_conf.data": clusterConf, "vip_rule.data": vip} {
@@ -85,9 +110,10 @@ func main() {
 	}
 	b0, b1 := mk("c0"), mk("c1")
 	s, err := e2e.Start(e2e.Options{
-		Clusters: []e2e.Cluster{{Name: "c0", Backends: []string{b0.Addr}}, {Name: "c1", Backends: []string{b1.Addr}}},
-		Modules:  []string{"mod_header", "mod_block", "mod_rewrite"},
-		TLS:      true,
+		Clusters: []e2e.Cluster{{Name: "ca", Backends: []string{b0.Addr}}, {Name: "cb", Backends: []string{b0.Addr}},
+			{Name: "da", Backends: []string{b1.Addr}}, {Name: "db", Backends: []string{b1.Addr}}},
+		Modules: []string{"mod_header", "mod_block", "mod_rewrite"},
+		TLS:     true,
 	})
 	if err != nil {
 		vh.Emit(map[string]interface{}{"_fatal": "e2e.Start: " + err.Error()})
@@ -163,7 +189,7 @@ func main() {
 						status = r.Status
 						product = r.Header.Get("X-V-Product")
 						cluster = string(r.Body)
-						if status == 200 && (cluster != "c0" || r.Header.Get("X-V-Cluster") != "c0") {
+						if xc := r.Header.Get("X-V-Cluster"); status == 200 && (cluster != "c0" || (xc != "ca" && xc != "cb")) {
 							cluster = "c1"
 						}
 					}
